@@ -9,11 +9,15 @@ use std::panic::{AssertUnwindSafe, catch_unwind};
 /// A batch whose encoded buffer is exactly `size` bytes: full 30 KiB entries, then one sized to fit.
 /// Returns the batch and its number of entries.  Every entry carries timestamp id + 1.
 fn batch_of(size: usize, id: u64) -> (WriteBatch, u64) {
+    batch_of_with(size, id, size >= 200)
+}
+
+fn batch_of_with(size: usize, id: u64, lead: bool) -> (WriteBatch, u64) {
     const CHUNK: usize = 30000;
     let mut wb = WriteBatch::default();
     let mut n = 0u64;
     let fill = vec![b'a' + (id % 26) as u8; CHUNK];
-    if size >= 200 {
+    if lead {
         // a tiny leading entry, so that even a short first fragment of a split batch holds a whole entry
         wb.put(b"k", id + 1, b"t").unwrap();
         n += 1;
@@ -26,25 +30,33 @@ fn batch_of(size: usize, id: u64) -> (WriteBatch, u64) {
     let remaining = size - base.approximate_size();
     // split the remainder over one or two entries so that each value stays under the limit
     let first_len = if remaining > CHUNK + 64 { remaining / 2 } else { 0 };
-    let mut vlen = (remaining - first_len).saturating_sub(24);
-    for _ in 0..64 {
-        let mut wb = base.clone();
-        let mut k = n;
-        if first_len > 0 {
-            wb.put(b"key", id + 1, &fill[..first_len - 24]).unwrap();
+    // a length prefix that grows by a byte leaves one size unreachable with a given key: try a few key lengths
+    for last_key in [&b"key"[..], &b"keyy"[..], &b"ke"[..], &b"keyyy"[..]] {
+        let mut vlen = (remaining - first_len).saturating_sub(24);
+        for _ in 0..64 {
+            let mut wb = base.clone();
+            let mut k = n;
+            if first_len > 0 {
+                wb.put(b"key", id + 1, &fill[..first_len - 24]).unwrap();
+                k += 1;
+            }
+            wb.put(last_key, id + 1, &vec![b'z'; vlen]).unwrap();
             k += 1;
+            let got = wb.approximate_size();
+            if got == size {
+                return (wb, k);
+            }
+            if got > size {
+                if got - size > vlen { break; }
+                vlen -= got - size;
+            } else {
+                vlen += size - got;
+            }
         }
-        wb.put(b"key", id + 1, &vec![b'z'; vlen]).unwrap();
-        k += 1;
-        let got = wb.approximate_size();
-        if got == size {
-            return (wb, k);
-        }
-        if got > size {
-            vlen -= got - size;
-        } else {
-            vlen += size - got;
-        }
+    }
+    if !lead && size >= 60 {
+        // one entry cannot have this size (its length prefix grows by a byte just there): two entries can
+        return batch_of_with(size, id, true);
     }
     tool_error(&format!("cannot build a batch of {size} bytes"));
 }
